@@ -157,19 +157,27 @@ CONTRACTS = {
     ensures=[('sum-of-all-variables-is-the-sum-of-the-row-sums', 'Sum(q, len(result), nu(result[q])) == Sum(i, len(self.model.pairs), varsum(self.model.pairs[i]))')]),
 
  M + 'optimisation_maxsize': dict(
-    requires=['has_vars(self.model.pairs)', "not used('obj_maxsize')"],
+    requires=['has_vars(self.model.pairs)', "not used('obj_maxsize')", 'len(self.model.pairs) == self.model.num_students', 'self.model.num_students >= 0', ('partial-assignment-constraints-present', 'implies(feas(), rows_partial(self.model))')],
+    use_lemmas={'return': [('C02/size-bound', {'r': 'lam(i, len(self.model.pairs), varsum(self.model.pairs[i]))', 'n': 'len(self.model.pairs)'}, 'if-applicable')]},
     defs={'o': ([], "namedvar('obj_maxsize')"), 'size': ([], 'Sum(i, len(self.model.pairs), varsum(self.model.pairs[i]))')},
     modifies=['self.info_string', 'self.solve_performed', 'ghost:feas', 'ghost:val', 'ghost:status', 'ghost:hist', 'ghost:solves', 'ghost:objective', 'ghost:feas_at_solve', 'ghost:used:obj_maxsize'],
     ensures=[('size-linked-maximised-frozen', 'feas() == (old(feas()) and 0 <= nu(o()) and nu(o()) <= self.model.num_students and size() == nu(o()) and nu(o()) >= solved(o()))'),
              ('one-solve', 'solves() == old(solves()) + 1 and hist(old(solves())) == status()'), ('earlier-history-unchanged', 'forall(u, implies(u < old(solves()), hist(u) == old(hist(u))))'), ('solve-recorded', 'implies(solves() > old(solves()), self.solve_performed) and implies(solves() == old(solves()), self.solve_performed == old(self.solve_performed))'),
-             ('maximises', 'objective() == nu(o())'), ('name-used', "used('obj_maxsize')")]),
+             ('maximises', 'objective() == nu(o())'), ('name-used', "used('obj_maxsize')"),
+             # witness-in-bounds: the size of EVERY matching feasible before this criterion lies within the bounds of the objective variable,
+             # so linking the variable excludes none of them (completeness half of C02 for this criterion)
+             ('every-feasible-matching-fits-the-objective-variable', 'implies(old(feas()), 0 <= size() and size() <= self.model.num_students)')]),
  M + 'optimisation_minsize': dict(
-    requires=['has_vars(self.model.pairs)', "not used('obj_minsize')"],
+    requires=['has_vars(self.model.pairs)', "not used('obj_minsize')", 'len(self.model.pairs) == self.model.num_students', 'self.model.num_students >= 0', ('partial-assignment-constraints-present', 'implies(feas(), rows_partial(self.model))')],
+    use_lemmas={'return': [('C02/size-bound', {'r': 'lam(i, len(self.model.pairs), varsum(self.model.pairs[i]))', 'n': 'len(self.model.pairs)'}, 'if-applicable')]},
     defs={'o': ([], "namedvar('obj_minsize')"), 'size': ([], 'Sum(i, len(self.model.pairs), varsum(self.model.pairs[i]))')},
     modifies=['self.info_string', 'self.solve_performed', 'ghost:feas', 'ghost:val', 'ghost:status', 'ghost:hist', 'ghost:solves', 'ghost:objective', 'ghost:feas_at_solve', 'ghost:used:obj_minsize'],
     ensures=[('size-linked-minimised-frozen', 'feas() == (old(feas()) and 0 <= nu(o()) and nu(o()) <= self.model.num_students and size() == nu(o()) and nu(o()) <= solved(o()))'),
              ('one-solve', 'solves() == old(solves()) + 1 and hist(old(solves())) == status()'), ('earlier-history-unchanged', 'forall(u, implies(u < old(solves()), hist(u) == old(hist(u))))'), ('solve-recorded', 'implies(solves() > old(solves()), self.solve_performed) and implies(solves() == old(solves()), self.solve_performed == old(self.solve_performed))'),
-             ('minimises', 'objective() == 0 - nu(o())'), ('name-used', "used('obj_minsize')")]),
+             ('minimises', 'objective() == 0 - nu(o())'), ('name-used', "used('obj_minsize')"),
+             # witness-in-bounds: the size of EVERY matching feasible before this criterion lies within the bounds of the objective variable,
+             # so linking the variable excludes none of them (completeness half of C02 for this criterion)
+             ('every-feasible-matching-fits-the-objective-variable', 'implies(old(feas()), 0 <= size() and size() <= self.model.num_students)')]),
 
  M + 'optimisation_mincost': dict(
     params={'cost_multipliers': ('list', 'int')},
@@ -257,7 +265,7 @@ CONTRACTS = {
  # ---- C04 / C14 / C16: criteria are dispatched in list order; after the first solve that is not Optimal nothing more is solved
  M + 'run_optimisations': dict(
     params={'optimisation_options': ('list', 'crit')},
-    requires=MODEL_OK + ['pairs_ok(self.model)', 'has_vars(self.model.rank_lists)', 'self.model.num_lecturers >= 1',
+    requires=MODEL_OK + ['pairs_ok(self.model)', 'has_vars(self.model.rank_lists)', 'self.model.num_lecturers >= 1', ('partial-assignment-constraints-present', 'implies(feas(), rows_partial(self.model))'),
               ('each-criterion-at-most-once', 'forall(a, 0, len(optimisation_options), forall(b, a + 1, len(optimisation_options), optimisation_options[a][0] != optimisation_options[b][0]))'),
               ('criteria-are-members', 'forall(a, 0, len(optimisation_options), 1 <= optimisation_options[a][0] and optimisation_options[a][0] <= 9)'),
               ('extras-are-lists-where-used', 'forall(a, 0, len(optimisation_options), implies(optimisation_options[a][0] == Optimisation_options.GENEROUS or optimisation_options[a][0] == Optimisation_options.GREEDY or optimisation_options[a][0] == Optimisation_options.MINCOST or optimisation_options[a][0] == Optimisation_options.MINSQCOST or optimisation_options[a][0] == Optimisation_options.MINCOSTLSB, optimisation_options[a][1] != None))'),
@@ -267,7 +275,7 @@ CONTRACTS = {
                               'solves() >= old(solves())', 'forall(u, implies(u < old(solves()), hist(u) == old(hist(u))))',
                               'implies(solves() == old(solves()), status() == old(status()))', 'implies(solves() > old(solves()), hist(solves() - 1) == status())',
                               'implies(solves() > old(solves()), self.solve_performed) and implies(solves() == old(solves()), self.solve_performed == old(self.solve_performed))',
-                              ('constraints-only-grow', 'implies(feas(), old(feas()))'),
+                              ('constraints-only-grow', 'implies(feas(), old(feas()))'), ('partial-assignment-constraints-present', 'implies(feas(), rows_partial(self.model))'),
                               ('names-used-by-the-criteria-run-so-far', "used('obj_maxsize') == exists(t, 0, _k, optimisation_options[t][0] == Optimisation_options.MAXSIZE) and used('obj_minsize') == exists(t, 0, _k, optimisation_options[t][0] == Optimisation_options.MINSIZE) and used('obj_mincost') == exists(t, 0, _k, optimisation_options[t][0] == Optimisation_options.MINCOST) and used('obj_minsqcost') == exists(t, 0, _k, optimisation_options[t][0] == Optimisation_options.MINSQCOST) and used('lec_max_abs_diff') == exists(t, 0, _k, optimisation_options[t][0] == Optimisation_options.LOADMAXBAL) and used('lec_sum_abs_diff') == exists(t, 0, _k, optimisation_options[t][0] == Optimisation_options.LOADSUMBAL) and used('obj_mincostlsb') == exists(t, 0, _k, optimisation_options[t][0] == Optimisation_options.MINCOSTLSB)")])},
     modifies=['self.info_string', 'self.solve_performed', 'ghost:feas', 'ghost:val', 'ghost:status', 'ghost:hist', 'ghost:solves', 'ghost:objective', 'ghost:feas_at_solve', 'ghost:used:obj_maxsize', 'ghost:used:obj_minsize', 'ghost:used:obj_mincost', 'ghost:used:obj_minsqcost', 'ghost:used:lec_max_abs_diff', 'ghost:used:lec_sum_abs_diff', 'ghost:used:obj_mincostlsb'],
     ensures=[('only-the-last-solve-may-have-failed', 'forall(u, old(solves()), solves() - 1, hist(u) == 1)'),
@@ -277,6 +285,7 @@ CONTRACTS = {
              ('solves-never-decrease', 'solves() >= old(solves())'), ('earlier-history-unchanged', 'forall(u, implies(u < old(solves()), hist(u) == old(hist(u))))'), ('solve-recorded', 'implies(solves() > old(solves()), self.solve_performed) and implies(solves() == old(solves()), self.solve_performed == old(self.solve_performed))')]),
 
  M + 'add_constraints': dict(inline=True,
+    use_lemmas={'after_call:upper_lower_constraints': [('SUM/nonneg', {'f': 'var_terms(self.model.pairs[i], len(self.model.pairs[i]))', 'n': 'len(self.model.pairs[i])'}, 'forall:i')]},
     loops={0: dict(invariant=[('load-balancing-constraints-needed-iff-lmb-lsb-or-mincostlsb-requested', 'load_balancing_constraints_needed == exists(t, 0, _k, optimisation_options[t][0] == Optimisation_options.LOADMAXBAL'
                               ' or optimisation_options[t][0] == Optimisation_options.LOADSUMBAL or optimisation_options[t][0] == Optimisation_options.MINCOSTLSB)')])}),
 
@@ -284,6 +293,7 @@ CONTRACTS = {
  M + 'run': dict(
     params={'msg': 'bool', 'timeLimit': 'optint', 'threads': 'optint', 'write': 'bool'},
     requires=MODEL_OK + ['pairs_ok(self.model)', 'has_vars(self.model.rank_lists)', 'self.model.num_lecturers >= 1', 'rows_sorted(self.model)',
+              ('pair-variables-are-binary', 'implies(feas(), pairs_binary(self.model))'),
               'implies(self.extra_constraints[Extra_constraints.STAB], two_sided(self.model) and stab_vars(self.model.pairs) and lists_two_sided(self.model.lecturer_lists))',
               'implies(self.instance_options[Instance_options.PC], len(self.model.project_closures) == self.model.num_projects)',
               ('each-criterion-at-most-once', 'forall(a, 0, len(self.optimisation_options), forall(b, a + 1, len(self.optimisation_options), self.optimisation_options[a][0] != self.optimisation_options[b][0]))'),
